@@ -516,9 +516,10 @@ def r13f(run):
               and isinstance(n.ast.value, ast.Dict) and len(n.ast.value.keys) == 1 and isinstance(n.ast.value.keys[0], ast.Name)}
     onames = {n.ast.targets[0].id for n in fa.cfg.nodes if n.kind == "stmt" and isinstance(n.ast, ast.Assign)
               and isinstance(n.ast.targets[0], ast.Name) and unparse(n.ast.value) == f"{RP}.__origin__"}
-    if len(onames) != 1:
+    if len(onames) > 1:
         raise AnalysisError(f"R13f: _get_args has no single origin local (found {sorted(onames)})")
-    ORI = sorted(onames)[0]
+    # (after alias propagation the origin is read as `<rule>.__origin__` itself)
+    ORI = f"{RP}.__origin__"
     ares = {n.ast.targets[0].id for n in fa.cfg.nodes if n.kind == "stmt" and isinstance(n.ast, ast.Assign)
             and isinstance(n.ast.targets[0], ast.Name) and isinstance(n.ast.value, ast.ListComp)
             and "generate_for_type" in unparse(n.ast.value)}
